@@ -190,6 +190,23 @@ def check(ctx):
                 if isinstance(x, ast.Compare) and any(isinstance(o, (ast.In, ast.NotIn)) for o in x.ops) and \
                         ast.unparse(x.comparators[0]) in ("self._avps", "self.avps"):
                     bad = x
+                if isinstance(x, ast.Compare) and len(x.ops) == 1 and isinstance(x.ops[0], (ast.Eq, ast.NotEq)):
+                    # == between two AVP objects (a parameter / an element taken from the list or the name map)
+                    def avp_obj(e, fn=fn):
+                        if isinstance(e, ast.Subscript) and ast.unparse(e.value) in ("self._avps", "self.avps", "self.__dict__"):
+                            return True
+                        if isinstance(e, ast.Name):
+                            defs = [n_.value for n_ in walk_no_nested(fn) if isinstance(n_, ast.Assign) and len(n_.targets) == 1
+                                    and isinstance(n_.targets[0], ast.Name) and n_.targets[0].id == e.id]
+                            if any(isinstance(d, ast.Subscript) and ast.unparse(d.value) in ("self._avps", "self.avps", "self.__dict__") for d in defs):
+                                return True
+                            if any(isinstance(d, ast.Call) and call_name(d) == "getattr" for d in defs):
+                                return True
+                            ps = [a_.arg for a_ in fn.args.args]
+                            return e.id in ps and e.id in ("value", "avp", "item", "new_avp", "old_avp", "new", "old")
+                        return False
+                    if avp_obj(x.left) and avp_obj(x.comparators[0]):
+                        bad = x
                 if bad is not None and eq_by_value:
                     ctx.violate("R-EQ", f"{ci.qual}.{fname}", ci.where(bad),
                                 f"`{ast.unparse(bad)}` uses == on AVPs (encodings), not identity", key="eq:" + ast.unparse(bad)[:40])
@@ -201,23 +218,32 @@ def check(ctx):
     # ---- clause 2 for update_avp (two views through setattr + self[index]) -----------------------
     ctx.clause = "2-same-object"
     ua = ctx.need(msg.methods.get("update_avp"), "DiameterMessage.update_avp")
-    sets = [c for c in fn_calls(ua) if call_name(c) == "setattr" and len(c.args) == 3]
-    items = [s for s in walk_no_nested(ua) if isinstance(s, ast.Assign) and isinstance(s.targets[0], ast.Subscript)
-             and ast.unparse(s.targets[0].value) == "self"]
-    if len(sets) == 1 and len(items) == 1:
-        a, b = sets[0].args[2], items[0].value
-        same = isinstance(a, ast.Name) and isinstance(b, ast.Name) and a.id == b.id
-        if same:
-            # single allocation site reaching both
-            allocs = [s for s in walk_no_nested(ua) if isinstance(s, ast.Assign) and isinstance(s.targets[0], ast.Name) and s.targets[0].id == a.id]
-            same = len(allocs) == 1
+    # on terms: the object bound to the name (setattr) and the object stored in the list (self[i] = / self._avps[i] =) are the
+    # result of ONE constructor evaluation on every path
+    from .. import sym as _sm
+    ps_ = [a_.arg for a_ in ua.args.args if a_.arg != "self"]
+    env_ = {a_: _sm.S(a_) for a_ in ps_}
+    n_paths = 0
+    for p_ in _sm.Interp(log_calls=True).run(strip_doc(ua.body), _sm.PathState(env_, [], [])):
+        if p_.term == "raise":
+            continue
+        named = [e[1][2][2] for e in p_.effects if e[0] == "ecall" and isinstance(e[1], tuple) and e[1][0] == "call"
+                 and e[1][1] == ("name", "setattr") and len(e[1][2]) == 3] + \
+                [e[3] for e in p_.effects if e[0] == "setitem" and _sm.show(e[1]) == "self.__dict__"]
+        listed = [e[3] for e in p_.effects if e[0] == "setitem" and _sm.show(e[1]) in ("self", "self._avps", "self.avps")]
+        if not named and not listed:
+            continue
+        n_paths += 1
+        same = len(named) == 1 and len(listed) == 1 and named[0] == listed[0]
+        if same and isinstance(named[0], tuple) and named[0][0] == "call":
+            same = len([e for e in p_.effects if e[0] == "ecall" and e[1] == named[0]]) == 1
         ctx.decide(same, "R-ALIAS/two-views", f"{msg.qual}.update_avp", msg.where(ua),
                    "attribute view and list receive one object",
-                   f"update_avp stores `{ast.unparse(a)}` as the attribute and `{ast.unparse(b)}` in the list: two different objects "
-                   f"for one logical AVP (a later change through one view is invisible through the other)", key="update_avp")
-    else:
-        ctx.undecided("R-ALIAS/two-views", f"{msg.qual}.update_avp", msg.where(ua),
-                      f"expected one setattr and one self[index] store, found {len(sets)}/{len(items)}", key="update_avp")
+                   f"update_avp binds {[_sm.show(x)[:50] for x in named]} to the name and stores {[_sm.show(x)[:50] for x in listed]} in the "
+                   f"list: not one object for one logical AVP (a later change through one view is invisible through the other)",
+                   key="update_avp")
+    if n_paths == 0:
+        ctx.undecided("R-ALIAS/two-views", f"{msg.qual}.update_avp", msg.where(ua), "no path that replaces an AVP was recognised", key="update_avp")
     # the index used for the replacement comes from an identity lookup
     li = ctx.need(msg.methods.get("_lookup_avp_index"), "DiameterMessage._lookup_avp_index")
     src = ast.unparse(li)
@@ -410,7 +436,34 @@ def check(ctx):
     writes = [n for n in cfg.nodes.values() if n.kind == "stmt" and isinstance(n.ast, ast.Assign)
               and ast.unparse(n.ast.targets[0]).endswith(".data")] + \
              [n for n in cfg.nodes.values() if any(call_name(c) == "self.update_avp" for c in node_calls(n))]
-    ctx.floor("data_write_sites", len(writes), 2)
+    raw = [n for n in cfg.nodes.values() if n.kind == "stmt" and isinstance(n.ast, ast.Assign) and isinstance(n.ast.targets[0], ast.Subscript)
+           and ast.unparse(n.ast.targets[0].value) in ("self._avps", "self.avps", "self")]
+    ctx.floor("data_write_sites", len(writes) + len(raw), 2)
+    # each key is applied coherently on its own: within one iteration of the per-key loop a replacement is followed by the
+    # length update before the next key is looked at (the constructor of the next key's AVP may raise - what was replaced so
+    # far must already be counted)
+    from .. import sym as _sy2
+    for lp in [n for n in walk_no_nested(up) if isinstance(n, ast.For)]:
+        for p_ in _sy2.Interp(log_calls=True).loop_body(lp, {}):
+            if p_.term == "raise":
+                continue
+            seq = []
+            for e in p_.effects:
+                if e[0] == "setitem" and _sy2.show(e[1]) in ("self._avps", "self.avps"):
+                    seq.append("raw-write")
+                elif e[0] == "setitem" and _sy2.show(e[1]) == "self":
+                    seq.append("item-write")       # __setitem__ refreshes itself (checked above)
+                elif e[0] == "ecall" and isinstance(e[1], tuple) and e[1][0] == "call" and e[1][1] == ("attr", ("name", "self"), "update_avp"):
+                    seq.append("item-write")
+                elif e[0] == "ecall" and isinstance(e[1], tuple) and e[1][0] == "call" and e[1][1] == ("attr", ("name", "self"), "refresh"):
+                    seq.append("refresh")
+            if "raw-write" in seq:
+                ok_ = "refresh" in seq[seq.index("raw-write"):]
+                ctx.decide(ok_, "R-MUSTPASS/refresh-per-key", f"{msg.qual}.update_avps", msg.where(lp),
+                           "a replacement is followed by the length update within the same iteration",
+                           "update_avps replaces an AVP in the list without updating the Message Length in the same iteration (the refresh "
+                           "is deferred to the end of the loop): when a later key is rejected by its AVP class the method leaves with the "
+                           "earlier replacements uncounted - the Message Length no longer equals the serialised size", key="per_key")
     for w in writes:
         ok = all(must_pass(cfg, lambda n: n.kind == "stmt" and ast.unparse(n.ast) == "self.refresh()", start=t)
                  for t, l in cfg.succ[w.id] if l not in ("exc", "excp"))
